@@ -97,6 +97,22 @@ theorem C11gen_{pkg}_verify_errors {{G G2 S L : Type}} [AddCommGroup G] [CommRin
   simp only [{ns}.Verify, Res.errVerify]
   cases pcf [toInt v • g1 + toInt (-z) • H - C, H] lines <;> simp
 """)
+    # ---------------------------------------------------------------- the empty batch
+    thm(f"C11gen_{pkg}_batchSingle_k0", f"""/-- the empty batch: `FoldProof` / `BatchVerifySinglePoint` answer ErrZeroNbDigests = the model (`C11_batchSingle_empty`) -/
+theorem C11gen_{pkg}_batchSingle_k0 (γ : ℕ) (H z g1 : Ex r) (l : ℕ × ℕ) (q0 q1 : Unit) :
+    ({ns}.FoldProof_k0 {INST} Ex.toInt H z).2.2.2 = Res.err "ErrZeroNbDigests" ∧
+    {ns}.BatchVerifySinglePoint_k0 {INST} Ex.toInt (pcFixed r) H z q0 q1 g1 l
+      = resOfVerdict (batchVerifySinglePoint r γ ⟨g1.v, l⟩ [] H.v [] z.v) := by
+  constructor
+  · rfl
+  · simp [{ns}.BatchVerifySinglePoint_k0, {ns}.FoldProof_k0, batchVerifySinglePoint, foldProof, resOfVerdict]
+""")
+    thm(f"C11gen_{pkg}_multi_k0", f"""/-- no claims: `BatchVerifyMultiPoints` answers ErrZeroNbDigests = the model -/
+theorem C11gen_{pkg}_multi_k0 (lams : List ℕ) (g1 : Ex r) (l : ℕ × ℕ) (q0 q1 : Unit) :
+    {ns}.BatchVerifyMultiPoints_k0 {INST} Ex.toInt q0 q1 g1 l
+      = resOfVerdict (batchVerifyMultiPoints r ⟨g1.v, l⟩ lams [] [] []) := by
+  simp [{ns}.BatchVerifyMultiPoints_k0, batchVerifyMultiPoints, resOfVerdict]
+""")
     # ---------------------------------------------------------------- fold, FoldProof, BatchVerifySinglePoint
     for k in range(1, 5):
         d, f, c, v = seq("d", k), seq("f", k), seq("c", k), seq("v", k)
